@@ -276,6 +276,31 @@ class Model:
             return cur, False
         return FnQ(self.w, Fn(j, cur.fn.crate)), True
 
+    def case_view(self, q, decide):
+        """the view `q` specialised to a case: `decide(atom)` returns False for a branch atom that cannot hold in the case
+        (None / True otherwise); edges carrying such an atom are cut, then constants are folded, joined-value tests threaded
+        and everything only the cut edges reach is emptied, to a fixpoint.  Every execution that satisfies the case follows
+        a path of the result."""
+        cur = q
+        for _round in range(40):
+            dead = set()
+            for blk in cur.body.blocks:
+                t = blk.term
+                if blk.cleanup or not t or t.k != "switch":
+                    continue
+                for tgt in set(cur.body.succs(blk.i)):
+                    if any(decide(a) is False for a in cur.cfg.edge_atoms(blk.i, tgt)):
+                        dead.add((blk.i, tgt))
+            dead |= cur.cfg.dead_edges()
+            dead = {(b, t) for (b, t) in dead if cur.body.blocks[t].term is None or cur.body.blocks[t].term.k != "unreachable"}
+            if not dead:
+                cur, changed = self._threaded(cur)
+                if not changed:
+                    break
+                continue
+            cur = self._pruned(cur, dead)
+        return cur
+
     def sv(self, f, S):
         """whole-operation view of `f` specialised to the case "the order the operation is about is on side S": branch
         edges that test that order's side (order.side, the stored key's side component, a side parameter bound to either, a
